@@ -4,9 +4,10 @@ Executes the model definitions the theorems are about.
 -/
 import Comrak.Drv.Util
 import Comrak.Drv.C19
+import Comrak.Drv.Html
 open Comrak.Drv
 
-def handlers : List Handler := [Comrak.Drv.C19.handle]
+def handlers : List Handler := [Comrak.Drv.C19.handle, Comrak.Drv.Html.handle]
 
 def answer (line : String) : String :=
   match line.trimAscii.toString.splitOn " " with
